@@ -81,7 +81,7 @@ func c18Match(rr *rand.Rand, kw string) string {
 	var sb strings.Builder
 	sb.WriteString("  " + kw + " {\n")
 	for i, n := 0, 1+rr.Intn(4); i < n; i++ {
-		switch hx.Pick(rr, []int{0, 1, 2, 3, 4, 4, 4, 5, 5, 5, 6, 7, 8}) {
+		switch hx.Pick(rr, []int{0, 1, 2, 3, 4, 4, 4, 5, 5, 5, 6, 7, 8, 9, 9}) {
 		case 0:
 			fmt.Fprintf(&sb, "    name = \"%s\"\n", c18Pat(rr))
 		case 1:
@@ -98,6 +98,25 @@ func c18Match(rr *rand.Rand, kw string) string {
 			fmt.Fprintf(&sb, "    for = \"%s\"\n", hx.Pick(rr, []string{"> 5m", "< 1h", ">= 0s", "!= 1m", "> 1m", "< 2h", "abc", "> abc", "5m", ""}))
 		case 7:
 			fmt.Fprintf(&sb, "    keep_firing_for = \"%s\"\n", hx.Pick(rr, []string{"> 5m", "< 1h", "> 0s", "abc", "> abc", ""}))
+		case 9:
+			// both sub-blocks in one match: each has to be validated on its own; one of the two is mostly a condition every
+			// generated rule meets, so that the other one is reached when rules are matched
+			lv, av := c18Val(rr), c18Val(rr)
+			switch rr.Intn(3) {
+			case 0:
+				lv = ".*"
+				if rr.Intn(2) == 0 {
+					av = hx.Pick(rr, c18Patterns[7:15])
+				}
+			case 1:
+				av = ".*"
+				if rr.Intn(2) == 0 {
+					lv = hx.Pick(rr, c18Patterns[7:15])
+				}
+			}
+			fmt.Fprintf(&sb, "    label \"%s\" {\n      value = \"%s\"\n    }\n", hx.Pick(rr, []string{"team", "severity", "job", "team"}), lv)
+			fmt.Fprintf(&sb, "    annotation \"%s\" {\n      value = \"%s\"\n    }\n", hx.Pick(rr, []string{"summary", "link"}), av)
+			i = n
 		case 8:
 			fmt.Fprintf(&sb, "    state = [\"%s\"]\n", hx.Pick(rr, []string{"any", "added", "modified", "renamed", "unmodified", "removed", "any", "any", "nope"}))
 		}
